@@ -7,7 +7,7 @@
 // yield / boost-yield / suspension; the records are printed for the monitors (REC lines) and as a
 // trace (IN PL) that the extracted model replays as an acceptor.
 //
-// usage: c10_place <seed> <case> <mode: rand|e6|yieldto|boost|sphint|firstsusp> <njobs>
+// usage: c10_place <seed> <case> <mode: rand|e6|yieldto|boost|sphint|sphintneg|firstsusp|firstsuspsp> <njobs>
 #include <pika/condition_variable.hpp>
 #include <pika/execution.hpp>
 #include <pika/init.hpp>
@@ -584,7 +584,7 @@ int main(int argc, char** argv)
         PoolSpec p;
         p.name = "A";
         p.W = 4;
-        p.policy = (g_mode == "boost") ? "static-priority" : (g_mode == "sphint") ? "shared-priority" : (r.below(2) ? "static" : "static-priority");
+        p.policy = (g_mode == "boost") ? "static-priority" : (g_mode == "sphint" || g_mode == "sphintneg") ? "shared-priority" : (r.below(2) ? "static" : "static-priority");
         p.elastic = g_mode == "e6" ? 1 : 0;
         g_pools.push_back(p);
         g_pools[0].W = 2;
@@ -594,9 +594,14 @@ int main(int argc, char** argv)
             hp = 2;
         }
     }
-    // firstsusp: the default pool only supplies contenders; shared-priority (outside the anchored code)
-    // crashed sporadically here (SIGSEGV in about 1 of 15 runs of `1 20 firstsusp 400`), so it is not drawn
-    if (g_mode == "firstsusp" && defpol == "shared-priority") defpol = "local-priority-fifo";
+    // firstsusp with a shared-priority default pool crashed sporadically BEFORE the first-phase wake-up repair
+    // (SIGSEGV in about 1 of 15 runs of `1 20 firstsusp 400`): the wake-up of a task in its first phase carried
+    // thread_schedule_hint(int16(-1)) and shared_priority_queue_scheduler::schedule_work indexes d_lookup_ /
+    // q_lookup_ with the raw hint (the defect of finding C10:shared_priority:hint_out_of_range, reached through
+    // set_active_state -> set_thread_state -> schedule_thread).  Since the scheduling loop records the worker
+    // at the start of every phase no wake-up carries -1 any more (0 crashes in 400 runs), so shared-priority is
+    // drawn again, and mode firstsuspsp forces it.
+    if (g_mode == "firstsuspsp") defpol = "shared-priority";
     g_pools[0].policy = defpol;
     int total = 0;
     for (auto& p : g_pools)
@@ -741,7 +746,7 @@ int main(int argc, char** argv)
         rec('R', ub);
         ok = wait_all(30);
     }
-    else if (g_mode == "firstsusp")
+    else if (g_mode == "firstsusp" || g_mode == "firstsuspsp")
     {
         // wake-up of a task whose FIRST phase ends in a suspension: many tasks (3 of 4 hinted, most on the
         // static pool A) whose very first action is to lock the contended pika::mutex, submitted by two OS
@@ -775,7 +780,7 @@ int main(int argc, char** argv)
         t1.join();
         ok = wait_all(30);
     }
-    else if (g_mode == "sphint")
+    else if (g_mode == "sphint" || g_mode == "sphintneg")
     {
         // shared-priority pool, thread hint far outside [0, W)
         for (int i = 0; i < njobs; ++i)
@@ -784,7 +789,9 @@ int main(int argc, char** argv)
             TaskInfo& t = info[u];
             t.pool = 1;
             t.hinted = true;
-            t.hint = 30000 + i;
+            // sphint: far beyond W; sphintneg: -1, the value a wake-up carried before the scheduling loop recorded
+            // the worker at the start of every phase (thread_schedule_hint(int16(-1)) has mode `thread`)
+            t.hint = (g_mode == "sphintneg") ? -1 : 30000 + i;
             t.ctxid = 0;
             expected.fetch_add(1);
             submit_execute(u);
